@@ -18,24 +18,34 @@ const (
 func c17Small(name string) uint64 { return uint64(zzsym.U8(name) & 0x3f) }
 
 // c17Meta builds an arbitrary VALID runtime meta for the channel (small integers: the row codec
-// writes varints, and a symbolic width would only multiply paths).
-func c17Meta() ChannelRuntimeMeta {
+// writes varints, and a symbolic width would only multiply paths). fence selects the write fence:
+// 0 none, 1 the task's own token, 2 another task's token, -1 any of the three.
+func c17Meta(fence int) ChannelRuntimeMeta {
 	m := ChannelRuntimeMeta{ChannelID: c17Ch, ChannelType: c17Type}
-	switch zzsym.Choice("meta.shape", 3) {
+	shapes := 1
+	if zzsym.Thorough() {
+		shapes = 3
+	}
+	switch zzsym.Choice("meta.shape", shapes) {
 	case 0:
-		m.Replicas, m.ISR = []uint64{1, 2, 3}, []uint64{1, 2, 3}
+		m.Replicas, m.ISR = []uint64{1, 2, 3, 4}, []uint64{1, 2, 3}
 	case 1:
 		m.Replicas, m.ISR = []uint64{1, 2, 3}, []uint64{1, 2}
 	default:
-		m.Replicas, m.ISR = []uint64{1, 2, 3, 4}, []uint64{1, 2, 3}
+		m.Replicas, m.ISR = []uint64{1, 2, 3}, []uint64{1, 2, 3}
 	}
-	m.Leader = uint64(1 + zzsym.Choice("meta.leader", 2))
-	m.MinISR = int64(1 + zzsym.Choice("meta.minisr", 2))
+	m.Leader = uint64(zzsym.U8("meta.leader"))
+	zzsym.Assume(m.Leader == 1 || m.Leader == 2)
+	m.MinISR = int64(zzsym.U8("meta.minisr"))
+	zzsym.Assume(m.MinISR == 1 || m.MinISR == 2)
 	m.ChannelEpoch = 1 + c17Small("meta.epoch")
 	m.LeaderEpoch = 1 + c17Small("meta.leaderepoch")
 	m.LeaseUntilMS = int64(c17Small("meta.lease"))
 	m.WriteFenceVersion = c17Small("meta.fencever")
-	switch zzsym.Choice("meta.fence", 3) {
+	if fence < 0 {
+		fence = zzsym.Choice("meta.fence", 3)
+	}
+	switch fence {
 	case 0:
 	case 1:
 		m.WriteFenceToken = c17Task
@@ -53,7 +63,10 @@ func c17Meta() ChannelRuntimeMeta {
 
 // c17TaskRow builds an arbitrary VALID migration task row for the channel (validity stated
 // constructively, field by field, so that no path is forked only to be discarded).
-func c17TaskRow() ChannelMigrationTask {
+func c17TaskRow() ChannelMigrationTask { return c17TaskRowF(-1) }
+
+// c17TaskRowF: fence 0 none, 1 own token, 2 foreign token, -1 any.
+func c17TaskRowF(fence int) ChannelMigrationTask {
 	t := ChannelMigrationTask{TaskID: c17Task, ChannelID: c17Ch, ChannelType: c17Type}
 	t.Kind = ChannelMigrationKind(zzsym.U8("task.kind"))
 	zzsym.Assume(t.Kind >= ChannelMigrationKindLeaderTransfer && t.Kind <= ChannelMigrationKindLeaderFailover)
@@ -67,7 +80,10 @@ func c17TaskRow() ChannelMigrationTask {
 	zzsym.Assume(t.Kind == ChannelMigrationKindReplicaReplace || t.DesiredLeader == 0 || t.DesiredLeader == t.TargetNode)
 	t.EmbeddedLeaderTransfer = zzsym.Bool("task.embedded")
 	t.EmbeddedDesiredLeader = uint64(zzsym.U8("task.embeddeddesired"))
-	switch zzsym.Choice("task.fence", 3) {
+	if fence < 0 {
+		fence = zzsym.Choice("task.fence", 3)
+	}
+	switch fence {
 	case 0:
 	case 1:
 		t.FenceToken = c17Task
@@ -236,7 +252,14 @@ const c17NumCmds = 9
 // only with a drain proof matching the channel's current fence version, channel epoch, leader
 // epoch and leader, under the task's own unexpired fence; and the written meta stays valid.
 func Harness_C17_CutoverNeedsMatchingProof() {
-	task, meta := c17TaskRow(), c17Meta()
+	tf, mf := 1, 1
+	if zzsym.Thorough() {
+		tf, mf = -1, -1
+	} else if zzsym.Choice("quick.fence", 2) == 1 {
+		tf, mf = zzsym.Choice("quick.taskfence", 3), zzsym.Choice("quick.metafence", 3)
+		zzsym.Assume(tf != 1 || mf != 1)
+	}
+	task, meta := c17TaskRowF(tf), c17Meta(mf)
 	e := c17Seed(task, meta)
 	cmd := 2
 	if zzsym.Choice("cutover.kind", 2) == 1 {
@@ -271,7 +294,7 @@ func Harness_C17_CutoverNeedsMatchingProof() {
 // Harness_C17_NoAbortAfterCutover: once a leader transfer is committed or a learner promoted, an
 // Abort with any request (matching guards) is refused and changes nothing.
 func Harness_C17_NoAbortAfterCutover() {
-	task, meta := c17TaskRow(), c17Meta()
+	task, meta := c17TaskRowF(1), c17Meta(1) // a cutover needs the task's own fence (Harness_C17_CutoverNeedsMatchingProof)
 	e := c17Seed(task, meta)
 	cmd := 2
 	if zzsym.Choice("cutover.kind", 2) == 1 {
@@ -291,7 +314,7 @@ func Harness_C17_NoAbortAfterCutover() {
 // cutover and the Abort. Advance/Claim copy the request's phase into the task without a
 // post-cutover guard (recorded finding C17-F1); every other interposed command is a hard obligation.
 func Harness_C17_NoAbortAfterCutoverHistory() {
-	task, meta := c17TaskRow(), c17Meta()
+	task, meta := c17TaskRowF(1), c17Meta(1)
 	// a task kind whose cutover is final: plain leader transfer/failover, or a promoted replica replace
 	cmd := 2
 	if zzsym.Choice("cutover.kind", 2) == 1 {
@@ -317,8 +340,7 @@ func Harness_C17_NoAbortAfterCutoverHistory() {
 // Harness_C17_ForeignFenceUntouched: no command of task t1 overwrites or clears a fence whose
 // token belongs to another task.
 func Harness_C17_ForeignFenceUntouched() {
-	task, meta := c17TaskRow(), c17Meta()
-	zzsym.Assume(meta.WriteFenceToken == c17Other)
+	task, meta := c17TaskRow(), c17Meta(2)
 	e := c17Seed(task, meta)
 	cmd := zzsym.Choice("cmd", c17NumCmds)
 	err := c17Apply(e, cmd, c17GuardOf(task), c17SymRuntimeGuard())
@@ -333,7 +355,7 @@ func Harness_C17_ForeignFenceUntouched() {
 // Harness_C17_GuardMismatchWritesNothing: a command whose task guard does not name the current
 // status/phase/owner/update stamp changes nothing.
 func Harness_C17_GuardMismatchWritesNothing() {
-	task, meta := c17TaskRow(), c17Meta()
+	task, meta := c17TaskRowF(1), c17Meta(1)
 	e := c17Seed(task, meta)
 	guard := c17GuardOf(task)
 	guard.ExpectedStatus = ChannelMigrationStatus(zzsym.U8("g.status"))
@@ -351,8 +373,8 @@ func Harness_C17_GuardMismatchWritesNothing() {
 // Harness_C17_AcceptedStepKeepsMetaValid: every accepted step of every command leaves valid metadata
 // and never lets a terminal task change.
 func Harness_C17_AcceptedStepKeepsMetaValid() {
-	task, meta := c17TaskRow(), c17Meta()
-	zzsym.Assume(meta.WriteFenceToken != c17Other)
+	f := zzsym.Choice("fence", 2)
+	task, meta := c17TaskRowF(f), c17Meta(f)
 	e := c17Seed(task, meta)
 	cmd := zzsym.Choice("cmd", c17NumCmds)
 	err := c17Apply(e, cmd, c17GuardOf(task), c17SymRuntimeGuard())
